@@ -40,7 +40,9 @@ META = {
              'disabled.  Work item = one generated program: first fault-free, then every single placement of every '
              'applicable fault kind at every interception step (exhaustive per program), then random pairs; threaded '
              'programs additionally get every single pre-emption placement (<=1 pre-emption, exhaustive per program, '
-             'capped) and random pre-emption.  Non-trivial = at least one fault fired or at least one context '
+             'capped), two placed pre-emptions for fire-and-forget workers (the worker starts at once, pre-emption #1 at each '
+             'of its line points, pre-emption #2 at a stride over the finalisation that follows; sampled, wall-clock capped) '
+             'and random pre-emption.  Non-trivial = at least one fault fired or at least one context '
              'switch happened inside playback code; distinct = distinct event-log digest.'),
     'assumptions': [
         'no nested or concurrent operations on one recorder (the code asserts against it)',
